@@ -174,6 +174,32 @@ Definition rmclientrq (st : state) (h : nat) (id : N) : state :=
       end
   end.
 
+(* removeclient: the client association ends -- every cached request is cancelled (removeclientrqs),
+   the reply queue is emptied releasing its references (removequeue) *)
+Definition removeclient (st : state) (c : nat) : state :=
+  let st1 := fold_left (fun st i => removeclientrq st c (N.of_nat i)) (seq 0 256) st in
+  let cl := get_client st1 c in
+  let st2 := set_client st1 c (mkClient (c_rqs cl) []) in
+  fold_left freerq (c_replyq cl) st2.
+
+(* ---------------------------------------------------------------- reference accounting (C17)
+   holders of request h: client caches, reply queues, server slots *)
+Definition occ_opt (h : nat) (l : list (option nat)) : N :=
+  N.of_nat (length (filter (fun o => match o with Some h' => Nat.eqb h' h | None => false end) l)).
+Definition occ (h : nat) (l : list nat) : N := N.of_nat (length (filter (Nat.eqb h) l)).
+Definition sumN (l : list N) : N := fold_right N.add 0 l.
+Definition refs (st : state) (h : nat) : N :=
+  sumN (map (fun cl => occ_opt h (c_rqs cl) + occ h (c_replyq cl)) (st_clients st)) +
+  sumN (map (fun sv => occ_opt h (map sl_rq (s_slots sv))) (st_servers st)).
+(* between handler invocations: a live request's count equals its holders (and is positive); nobody holds
+   a released one *)
+Definition rc_ok_at (st : state) (h : nat) : bool :=
+  match nth_error (st_heap st) h with
+  | Some (Some r) => (rq_refcount r =? refs st h) && (0 <? rq_refcount r)
+  | _ => refs st h =? 0
+  end.
+Definition rc_ok (st : state) : bool := forallb (rc_ok_at st) (seq 0 (length (st_heap st))).
+
 Section Proxy.
   Variable md5 : bytes -> bytes.
   Variable rx : N -> bytes -> option (list (Z * Z)).
